@@ -102,6 +102,11 @@ func Fetch(
 			return nil
 		}
 
+		// Entries without content on the tape were never encoded
+		if hdr.Size == 0 {
+			return dstFile.Close()
+		}
+
 		decryptor, err := encryption.Decrypt(tr, pipes.Encryption, crypto.Identity)
 		if err != nil {
 			return err
